@@ -93,7 +93,31 @@ func (r *recorder) Eval(fp string, nt bool) {
 	r.mu.Unlock()
 }
 
+// sanitize makes v safe to embed in JSON output (a generated patch may hold malformed raw JSON).
+func sanitize(v any) any {
+	if v == nil {
+		return nil
+	}
+	if b, err := json.Marshal(v); err == nil {
+		return json.RawMessage(b)
+	}
+	if m, isM := v.(map[string]any); isM {
+		out := make(map[string]any, len(m))
+		for k, e := range m {
+			out[k] = sanitize(e)
+		}
+		return out
+	}
+	return fmt.Sprintf("%+v", derefAll(v))
+}
+
+// derefAll renders through JSON-with-raw-as-string when possible, else with %+v.
+func derefAll(v any) any {
+	return kit.JSON(rawAsString(v))
+}
+
 func (r *recorder) Violate(key, caseName, what string, witness any) {
+	witness = sanitize(witness)
 	r.mu.Lock()
 	defer r.mu.Unlock()
 	if v, seen := r.idx[key]; seen {
@@ -110,6 +134,7 @@ func (r *recorder) Violate(key, caseName, what string, witness any) {
 }
 
 func (r *recorder) Sample(v any) {
+	v = sanitize(v)
 	r.mu.Lock()
 	if len(r.res.Samples) < 48 {
 		r.res.Samples = append(r.res.Samples, v)
@@ -127,7 +152,13 @@ func (r *recorder) WantSample() bool {
 // on goroutine scheduling.
 func (r *recorder) finalSamples() {
 	idx := func(v any) int {
-		m, _ := v.(map[string]any)
+		var m map[string]any
+		switch t := v.(type) {
+		case json.RawMessage:
+			_ = json.Unmarshal(t, &m)
+		case map[string]any:
+			m = t
+		}
 		s, _ := m["case"].(string)
 		n, _ := strconv.Atoi(s[strings.LastIndex(s, "/")+1:])
 		return n
@@ -293,6 +324,10 @@ func runChild(c *kit.Ctx, p part, batch string, lo, hi int, skip []int, markFile
 	if ctx.Err() != nil {
 		return childRun{note: "child timed out"}
 	}
+	if ee, isExit := runErr.(*exec.ExitError); isExit && ee.ExitCode() == 3 {
+		eb, _ := os.ReadFile(errFile)
+		return childRun{note: "harness error in child: " + firstLines(string(eb), 3)}
+	}
 	eb, _ := os.ReadFile(errFile)
 	if len(eb) > 1<<16 {
 		eb = eb[:1<<16]
@@ -317,21 +352,33 @@ func fatalKey(stderr string) (key, msg string) {
 			break
 		}
 	}
+	// the function that dominates the running goroutine's stack (for a runaway recursion the
+	// innermost frame is arbitrary, the dominant one is not); ties go to the innermost
 	fn := "unknown"
 	for i, ln := range lines {
 		if !rxGoroutineRunning.MatchString(ln) {
 			continue
 		}
+		count := map[string]int{}
+		var order []string
 		for _, fl := range lines[i+1:] {
 			if fl == "" {
 				break
 			}
-			if strings.HasPrefix(fl, "\t") || strings.HasPrefix(fl, "runtime.") || strings.HasPrefix(fl, "panic(") {
+			if strings.HasPrefix(fl, "\t") || strings.HasPrefix(fl, "runtime.") || strings.HasPrefix(fl, "panic(") || strings.HasPrefix(fl, "...") {
 				continue
 			}
 			if m := rxFrame.FindStringSubmatch(fl); m != nil {
-				fn = m[1]
-				break
+				if count[m[1]] == 0 {
+					order = append(order, m[1])
+				}
+				count[m[1]]++
+			}
+		}
+		best := 0
+		for _, f := range order {
+			if count[f] > best {
+				fn, best = f, count[f]
 			}
 		}
 		break
